@@ -100,6 +100,21 @@ func Registry(prop, tier string) []UniverseDef {
 		// the map behaves the same whatever the value type: overwrite-rich closures with slices, `any`, odd sizes
 		out = append(out, ValueTypeUniverses()...)
 	}
+	if prop == "C02" || prop == "C05" {
+		// combs of 4-way nodes more than 64 levels deep: a traversal leaves one sibling pending per level, so the number
+		// of pending entries exceeds any fixed traversal-stack capacity. COMB (a, aa, aaa, ...) does so for descending
+		// traversals (the stored stem is the smaller child at every level), COMBZ (z, az, aaz, ...) for ascending ones.
+		comb := AlphaSpec{Name: "COMB", NoAutoP: true, Free: []string{rep('a', 73), "b", rep('a', 40) + "b"}, Probes: []string{rep('a', 80), rep('a', 30) + "c"}}
+		combz := AlphaSpec{Name: "COMBZ", NoAutoP: true, Free: []string{rep('a', 72) + "z", "b", rep('a', 40) + "b"}, Probes: []string{rep('a', 80), rep('a', 30) + "c"}}
+		for i := 1; i <= 72; i++ {
+			comb.Setup = append(comb.Setup, rep('a', i))
+			combz.Setup = append(combz.Setup, rep('a', i-1)+"z")
+		}
+		for _, sp := range []AlphaSpec{comb, combz} {
+			sp := sp
+			add(func() *Universe { return NewAlphaUniverse(sp, "string") }, "alpha[string]/"+sp.Name)
+		}
+	}
 	if prop == "C01" {
 		add(func() *Universe { return NewAlphaUniverse(NulSpec(), "string") }, "alpha[string]/NUL")
 		// byte-slice keys handed over in one reused buffer (keys are told apart by content, not by buffer identity)
